@@ -705,8 +705,16 @@ class Contract:
 REGISTRY = {}  # "Class.method" -> Contract
 
 
+LEMMAS = {}    # "Class.method" -> Contract that is verified but never applied at call sites (see register)
+
+
 def register(c):
-    REGISTRY[c.qual] = c
+    """contracts are applied at call sites (modular verification); a contract marked `lemma_only` is only verified: it justifies a
+    shortcut the library model takes for that method (thin wrappers around networkx mutators)"""
+    if getattr(c, "lemma_only", False):
+        LEMMAS[c.qual] = c
+    else:
+        REGISTRY[c.qual] = c
     return c
 
 
@@ -1833,6 +1841,20 @@ class Executor:
                 if la is not None and lb is not None:
                     r.len_z = la + lb
                 return r
+        if isinstance(op, ast.Mult) and isinstance(a, Coll) and a.kind == "list" and a.items is not None and len(a.items) == 1 \
+                and isinstance(b, Scalar) and b.z.sort() == I:
+            # [x] * n : n copies of x (empty for n <= 0)
+            xz = z3_of(a.items[0])
+            n = z3.If(b.z >= 0, b.z, z3.IntVal(0))
+            y, i_ = fresh("y", xz.sort()), fresh("i", I)
+            k = next(_fresh)
+            at = z3.Function(f"at!{k}", I, xz.sort())
+            idx = z3.Function(f"idx!{k}", xz.sort(), I)
+            st.assume(z3.ForAll([i_], at(i_) == xz))
+            st.assume(idx(xz) == 0)
+            r = Coll("list", xz.sort(), z3.Lambda([y], z3.And(n > 0, y == xz)), nodup=False)
+            r.len_z, r.seq = n, (at, idx)
+            return r
         if isinstance(a, Scalar) and isinstance(b, Scalar) and a.z.sort() in (I, R) and b.z.sort() in (I, R):
             az, bz = a.z, b.z
             if az.sort() != bz.sort():
